@@ -276,9 +276,46 @@ pub fn scenario(g: &mut G, ctx: &RunCtx) -> RunReport {
         let via_session = g.chance(1, 2);
         let u2 = url.clone();
         let u3 = url_s.clone();
+        // (no draw) the entry points that take their proxy settings from the environment by default, and the
+        // moment they do so: when the session / the request is *created* - somebody changing the process
+        // environment afterwards does not re-route objects that exist already
+        let variant = (url_s.len() + vals.iter().filter(|(_, v)| v.text().is_some()).count()) % 3;
+        let entry: &'static str = match (via_session, variant) {
+            (true, 0) => "Session::new()",
+            (true, 1) => "Session::default()",
+            (true, _) => "Session::new(), environment changed before get()",
+            (false, 0) => "free function",
+            (false, 1) => "RequestBuilder::try_new",
+            (false, _) => "free function, environment changed before send()",
+        };
+        let upset_env = || {
+            for k in ["http_proxy", "HTTP_PROXY", "https_proxy", "HTTPS_PROXY", "all_proxy", "ALL_PROXY", "no_proxy", "NO_PROXY"] {
+                attosim::set_env_now(k, None);
+            }
+            attosim::set_env_now("http_proxy", Some("http://elsewhere.test:9999"));
+            attosim::set_env_now("https_proxy", Some("http://elsewhere.test:9999"));
+        };
         let out = sim.run(move || {
             let r = attohttpc::ProxySettings::from_env().for_url(&u2).map(|u| u.to_string());
-            let _ = if via_session { attohttpc::Session::new().get(&u3).send() } else { attohttpc::get(&u3).send() };
+            let _ = match entry {
+                "Session::new()" => attohttpc::Session::new().get(&u3).send(),
+                "Session::default()" => attohttpc::Session::default().get(&u3).send(),
+                "Session::new(), environment changed before get()" => {
+                    let s = attohttpc::Session::new();
+                    upset_env();
+                    s.get(&u3).send()
+                }
+                "RequestBuilder::try_new" => match attohttpc::RequestBuilder::try_new(attohttpc::Method::GET, &u3) {
+                    Ok(rb) => rb.send(),
+                    Err(e) => Err(e),
+                },
+                "free function, environment changed before send()" => {
+                    let rb = attohttpc::get(&u3);
+                    upset_env();
+                    rb.send()
+                }
+                _ => attohttpc::get(&u3).send(),
+            };
             r
         });
         stats.absorb(&out.history);
@@ -343,7 +380,7 @@ pub fn scenario(g: &mut G, ctx: &RunCtx) -> RunReport {
                 if c.addr.to_string() != want_addr {
                     violation(
                         if matches!(w, Want::Proxy(_)) { "env:default-settings-dialled-wrong-peer:want-proxy" } else { "env:default-settings-dialled-wrong-peer:want-direct" },
-                        format!("a request with default settings ({}) for {} dialled {}, expected {} (env {:?}, no_proxy={:?} NO_PROXY={:?})", if via_session { "fresh session" } else { "free function" }, url_s, c.addr, want_addr, vals.iter().map(|(k, v)| (k, v.text())).collect::<Vec<_>>(), np_lower, np_upper),
+                        format!("a request with default settings ({}) for {} dialled {}, expected {} (env {:?}, no_proxy={:?} NO_PROXY={:?})", entry, url_s, c.addr, want_addr, vals.iter().map(|(k, v)| (k, v.text())).collect::<Vec<_>>(), np_lower, np_upper),
                     )
                 } else {
                     Verdict::Pass
